@@ -725,6 +725,9 @@ impl<'c> Interp<'c> {
             if c.prev != prev || c.next != next {
                 self.fail("C10/prev-next", format!("{what}: chunk {i} prev/next {:x?}/{:x?} inconsistent with list order {prev:x?}/{next:x?}", c.prev, c.next));
             }
+            if i > 0 && c.size + 16 < 2 * s.chunks[i - 1].size {
+                self.fail("C12/growth-doubling", format!("{what}: chunk {i} size {} is smaller than twice its predecessor {} less 16", c.size, s.chunks[i - 1].size));
+            }
             if i > 0 && c.size <= s.chunks[i - 1].size {
                 self.fail("C10/strictly-larger", format!("{what}: chunk {i} size {} not larger than its predecessor {}", c.size, s.chunks[i - 1].size));
             }
